@@ -17,6 +17,8 @@ Member type grammar (lists):
   ["ct", Name]              member whose type is a named callback typedef
   ["pa", T]                 pointer used as array (<array c:type="T*"> without fixed-size)
   ["gl", which]             GList* / GSList* / GHashTable* / GError* member
+  ["ps", girname]           pointer to a scalar  T *m  (<type name="guint8" c:type="guint8*"/>)
+  ["xv", "Ns.Name", CName]  record/union of an included namespace embedded by value (CName: its C declaration)
   ["za", T]                 zero-terminated C array, a pointer (<array c:type="T*"> e.g. gchar**)
   ["ga", which]             GArray* / GPtrArray* / GByteArray* member (<array name="GLib.Array" ...>)
   ["d", Name]               member whose type is a "pointer"/"disguised" record (typedef struct _X *Name;)
@@ -114,7 +116,7 @@ def type_sa(t, env, c_view=True):
     k = t[0]
     if k == 'b':
         return BASIC[t[1]][1], BASIC[t[1]][2]
-    if k in ('p', 'cb', 'ct', 'pa', 'gl', 'd', 'za', 'ga'):
+    if k in ('p', 'cb', 'ct', 'pa', 'gl', 'd', 'za', 'ga', 'ps'):
         return 8, 8
     if k == 'al':
         return BASIC[env[t[1]][2]][1], BASIC[env[t[1]][2]][2]
@@ -126,6 +128,9 @@ def type_sa(t, env, c_view=True):
         return s * t[2], a
     if k == 'v':
         lay = compound_layout(env[t[1]], env, c_view)
+        return lay['size'], lay['align']
+    if k == 'xv':
+        lay = compound_layout(env[t[2]], env, c_view)
         return lay['size'], lay['align']
     if k == 'anon':
         lay = compound_layout(['U' if t[1] else 'S', '', t[2]], env, c_view)
@@ -220,6 +225,10 @@ def c_member(t, name, pfx, local):
         return 'C%s %s' % (_resolve(t[1], pfx, local), name)
     if k == 'p':
         return 'C%s *%s' % (_resolve(t[1], pfx, local), name)
+    if k == 'ps':
+        return '%s *%s' % (BASIC[t[1]][0], name)
+    if k == 'xv':
+        return 'C%s %s' % (_resolve(t[2], pfx, local), name)
     if k == 'a':
         return '%s[%d]' % (c_member(t[1], name, pfx, local), t[2])
     if k == 'cb':
@@ -358,6 +367,10 @@ def gir_type(t, pfx, local):
     if k == 'p':
         n = _resolve(t[1], pfx, local)
         return G.I(n, 'C' + n, byref=1)
+    if k == 'ps':
+        return G.B(t[1], ctype=G.BASIC[t[1]][2] + '*')
+    if k == 'xv':
+        return G.I(t[1], t[1].replace('.', ''), byref=0)
     if k == 'a':
         return G.Arr(gir_type(t[1], pfx, local), fixed_size=t[2], zero_terminated=False)
     if k == 'pa':
